@@ -41,6 +41,12 @@ GetOK(S1, r) ==
         /\ r.get.haslen = (B.len # NoLen)
         /\ (B.len # NoLen => r.get.len_s = B.len)
 
+(* A finished, visible bar whose last handle is dropped stays on the terminal as it  *)
+(* is: what was painted last for it must be the rendering of its final state.        *)
+FinalOK(S0, S1, r) ==
+    (r.op = "drop" /\ r.b \in S0.ids /\ S0.bars[r.b].fin = "vis" /\ Visible(S0, r.b) /\ S0.bars[r.b].drawn /\ ~S0.blanked)
+        => S0.bars[r.b].onscr = S0.bars[r.b].pend
+
 AnyWrapped(S1, c) == \E l \in {x : x \in {AboveLines(S1, c.above)[j] : j \in 1..Len(AboveLines(S1, c.above))} \cup {ShownLines(S1, c.order)[j] : j \in 1..Len(ShownLines(S1, c.order))}} : Cols(l) > S1.w
 
 NoM == [p |-> FALSE, cut |-> FALSE, k |-> 0, v |-> 0, wrapped |-> FALSE, forced |-> FALSE, log |-> FALSE]
@@ -59,14 +65,15 @@ Step(S0, T0, r) ==
         [S |-> quietS, T |-> T1, m |-> NoM,
          rule |-> IF LibCalls(r) # <<>> THEN "QuietOK"
                   ELSE IF res.forced THEN "ForcedOK"
+                  ELSE IF ~FinalOK(S0, S1, r) THEN "FinalOK"
                   ELSE IF ~GetOK(S1, r) THEN "GetOK"
                   ELSE ""]
     ELSE
         LET ms == Matches(S1, T1, res.log, res.blank) IN
         IF ms = {} THEN
             [S |-> quietS, T |-> T1, m |-> NoM,
-             exp |-> AboveLines(quietS, HeadMove(quietS, quietS.above, quietS.order).above)
-                     \o <<<<45, 45>>>> \o (IF res.blank THEN <<>> ELSE Cut(ShownLines(quietS, HeadMove(quietS, quietS.above, quietS.order).order), quietS.h, quietS.w)),
+             exp |-> LET hm == HeadMove(quietS, quietS.above, quietS.order) IN
+                     AboveLines(quietS, hm.above) \o <<<<45, 45>>>> \o (IF res.blank THEN <<>> ELSE Cut(ShownLines(quietS, hm.order), quietS.h, quietS.w)),
              rule |-> IF ~LogIntact(S1, T1, quietS.above) THEN "LogOK" ELSE "ScreenOK"]
         ELSE
             (* Among the layouts that explain the screen prefer one that also explains the  *)
@@ -84,11 +91,12 @@ Step(S0, T0, r) ==
                 k == mk[2]
                 total == Total(mk)
                 S2 == [S1 EXCEPT !.above = c.above, !.order = c.order, !.blanked = res.blank, !.bottom = IF S1.align = "bottom" /\ ~res.blank THEN NextPrint(T1)[1] ELSE 0,
-                                 !.bars = [b \in DOMAIN S1.bars |-> IF b \in c.V THEN [S1.bars[b] EXCEPT !.static = FALSE, !.vis = FALSE] ELSE S1.bars[b]]]
+                                 !.bars = [b \in DOMAIN S1.bars |-> IF b \in c.V THEN [S1.bars[b] EXCEPT !.static = FALSE, !.vis = FALSE]
+                                                         ELSE IF res.blank THEN S1.bars[b] ELSE [S1.bars[b] EXCEPT !.onscr = S1.bars[b].pend]]]
                 cut == ~res.blank /\ IsCut(S1, c)
             IN [S |-> S2, T |-> T1,
                 m |-> [p |-> TRUE, forced |-> res.forced, log |-> res.log # <<>>, cut |-> cut, k |-> k, v |-> Cardinality(c.V),
-                       wrapped |-> total > Len(AboveLines(S1, c.above)) + k + (IF res.blank THEN 0 ELSE Len(Cut(ShownLines(S1, c.order), S1.h, S1.w)))],
+                       wrapped |-> total > Len(TopLines(S1, c, res.blank)) + Len(ShownCut(S1, c, res.blank))],
                 rule |-> IF TabInCalls(r) THEN "NoTab"
                          ELSE IF ~Cur(mk) THEN "CursorOK"
                          ELSE IF ~Bot(mk) THEN "BottomOK"
